@@ -31,6 +31,8 @@ T: Dict[str, Tuple[dict, dict, str]] = {
     "bool_or_bounds": ({"n": "int"}, {"flag": "bool"}, "flag = n < {p} or n < 4 or n == 7\n"),
     "negated_cmp": ({"n": "int"}, {"flag": "bool"}, "flag = not n > {p}\n"),
     "common_tail": ({"n": "int"}, {"acc": "int"}, "if n % 2 == {p} % 2:\n    acc = 1\n    print('tail')\nelse:\n    acc = 2\n    print('tail')\n"),
+    "common_tail_in_def": ({"n": "int"}, {"acc": "int"},
+                           "def branchy(v):\n    if v > {p}:\n        print('big')\n        print('tail')\n    else:\n        print('small')\n        print('tail')\nbranchy(n)\nacc = n\n"),
     "early_continue": ({"xs": "list"}, {"acc": "int"},
                        "for x in xs:\n    if x > {p}:\n        acc += x\n        acc += 1\n        print(acc)\n"),
     "while_count": ({"n": "int"}, {"acc": "int"}, "k = 0\nwhile k < n:\n    k += {p}\nacc = k\n"),
